@@ -55,57 +55,83 @@ theorem generateOne_spec (insts : List ProfileInst) (f : Flags) (jg : JobGraph) 
       obtain ⟨h1, h2⟩ := h
       refine ⟨T, rfl, h2.symm, ?_, ?_⟩ <;> simp [← h1]
 
-/-- Pass 1 of `load_job_graph` with an override SLO: every job gets the override. -/
-theorem loadJobs_slo_override (origNames : List String) (pmap : List Nat) (nodes : List NodeD)
-    (slo : Int) (hs : slo ≠ -1) (st st' : LState) (acc jobs : List Job)
-    (hacc : ∀ j ∈ acc, j.slo = slo)
+/-- Pass 1 of `load_job_graph`: job `k` carries `jobSlo override node_k`. -/
+theorem loadJobs_slo (origNames : List String) (pmap : List Nat) (nodes : List NodeD)
+    (slo : Int) (st st' : LState) (acc jobs : List Job)
     (h : loadJobs origNames pmap nodes slo st acc = .ok (st', jobs)) :
-    ∀ j ∈ jobs, j.slo = slo := by
+    jobs.map (·.slo) = acc.map (·.slo) ++ nodes.map (jobSlo slo) := by
   induction nodes generalizing st acc with
   | nil =>
     simp only [loadJobs, Except.ok.injEq, Prod.mk.injEq] at h
     obtain ⟨_, rfl⟩ := h
-    exact hacc
+    simp
   | cons nd nds ih =>
     unfold loadJobs at h
     cases hr : resolveProfile origNames pmap nd st with
     | error e => simp [hr] at h
     | ok v =>
       obtain ⟨st1, pidx⟩ := v
-      have hk : nextSlo slo nd = slo := by simp [nextSlo, hs]
-      simp only [hr, hk] at h
-      refine ih st1 _ ?_ h
-      intro j hj
-      simp only [List.mem_append, List.mem_singleton] at hj
-      rcases hj with hj | rfl
-      · exact hacc j hj
-      · rfl
+      simp only [hr] at h
+      rw [ih st1 _ h]
+      simp
 
-/-- Pass 1 without override on nodes that carry no SLO: nobody gets one. -/
-theorem loadJobs_slo_none (origNames : List String) (pmap : List Nat) (nodes : List NodeD)
-    (hn : ∀ nd ∈ nodes, nd.slo = none) (st st' : LState) (acc jobs : List Job)
-    (hacc : ∀ j ∈ acc, j.slo = -1)
-    (h : loadJobs origNames pmap nodes (-1) st acc = .ok (st', jobs)) :
-    ∀ j ∈ jobs, j.slo = -1 := by
+/-- Pass 1 keeps names, flags and probabilities too. -/
+theorem loadJobs_names (origNames : List String) (pmap : List Nat) (nodes : List NodeD)
+    (slo : Int) (st st' : LState) (acc jobs : List Job)
+    (h : loadJobs origNames pmap nodes slo st acc = .ok (st', jobs)) :
+    jobs.map (·.name) = acc.map (·.name) ++ nodes.map (·.name) := by
   induction nodes generalizing st acc with
   | nil =>
     simp only [loadJobs, Except.ok.injEq, Prod.mk.injEq] at h
     obtain ⟨_, rfl⟩ := h
-    exact hacc
+    simp
   | cons nd nds ih =>
     unfold loadJobs at h
     cases hr : resolveProfile origNames pmap nd st with
     | error e => simp [hr] at h
     | ok v =>
       obtain ⟨st1, pidx⟩ := v
-      have hnd : nd.slo = none := hn nd (by simp)
-      have hk : nextSlo (-1) nd = -1 := by simp [nextSlo, hnd]
-      simp only [hr, hk] at h
-      refine ih (fun x hx => hn x (by simp [hx])) st1 _ ?_ h
-      intro j hj
-      simp only [List.mem_append, List.mem_singleton] at hj
-      rcases hj with hj | rfl
-      · exact hacc j hj
-      · rfl
+      simp only [hr] at h
+      rw [ih st1 _ h]
+      simp
+
+/-- The loop of `generate_task_graphs`: one task graph per release, in order,
+each a fresh copy released at its release time. -/
+theorem generateList_spec (insts : List ProfileInst) (f : Flags) (jg : JobGraph)
+    (rel : List Int) (i : Nat) (gs gs' : GenState) (tgs : List TaskGraph)
+    (h : generateList insts f jg i rel gs = .ok (gs', tgs)) :
+    tgs.length = rel.length ∧
+    ∀ k, k < rel.length → ∃ dl fid,
+      tgs[k]? = some (instantiate jg s!"{jg.name}@{((i + k : Nat) : Int)}" ((i + k : Nat) : Int) (rel.getD k 0) dl fid) := by
+  induction rel generalizing i gs gs' tgs with
+  | nil =>
+    simp only [generateList, Except.ok.injEq, Prod.mk.injEq] at h
+    obtain ⟨_, rfl⟩ := h
+    simp
+  | cons r rs ih =>
+    unfold generateList at h
+    simp only [Int.ofNat_eq_natCast] at h
+    cases h1 : generateOne insts f jg (i : Int) r gs with
+    | error e => simp [h1] at h
+    | ok v =>
+      obtain ⟨g1, tg⟩ := v
+      simp only [h1] at h
+      cases h2 : generateList insts f jg (i + 1) rs g1 with
+      | error e => simp [h2] at h
+      | ok w =>
+        obtain ⟨g2, rest⟩ := w
+        simp only [h2, Except.ok.injEq, Prod.mk.injEq] at h
+        obtain ⟨_, rfl⟩ := h
+        obtain ⟨hl, hk⟩ := ih (i + 1) g1 g2 rest h2
+        obtain ⟨T, _, e, _, _⟩ := generateOne_spec insts f jg (i : Int) r gs g1 tg h1
+        refine ⟨by simp [hl], ?_⟩
+        intro k hklt
+        cases k with
+        | zero => subst e; exact ⟨_, _, rfl⟩
+        | succ k =>
+          obtain ⟨dl, fid, hh⟩ := hk k (by simp at hklt; omega)
+          refine ⟨dl, fid, ?_⟩
+          have : i + 1 + k = i + (k + 1) := by omega
+          simpa [this] using hh
 
 end ErdosVerif.Loader
